@@ -100,6 +100,23 @@ let task_line l =
      | o -> show_outcome (fun _ -> "") o)
   | _ -> "bad"
 
+(* v=<0|1> then `;`-separated: S id desc cmd | F id desc cmd hide term hex   -> the bytes printed *)
+let dumb_line l =
+  let opt s = if s = "~" then None else Some (bytes_of_hex s) in
+  let ni s = n_of_int (int_of_string s) in
+  match String.index_opt l ' ' with
+  | None -> "bad"
+  | Some i ->
+    let v = String.sub l 0 i = "v=1" in
+    let rest = String.sub l (i + 1) (String.length l - i - 1) in
+    let ops = List.filter_map (fun o ->
+      match words o with
+      | [] -> None
+      | ["S"; id; d; c] -> Some (DStart (ni id, opt d, opt c))
+      | ["F"; id; d; c; hide; term; h] -> Some (DFinish (ni id, opt d, opt c, hide = "1", ni term, bytes_of_hex h))
+      | _ -> failwith "bad dumb op") (String.split_on_char ';' rest) in
+    show_outcome (fun (segs, _) -> hex_of_bytes (printed segs)) (d_run0 v ops)
+
 let lossy_line l = "ok " ^ hex_of_bytes (lossy (bytes_of_hex l))
 
 let status_line l = "ok " ^ string_of_int (int_of_n (decode_status (n_of_int (int_of_string (String.trim l)))))
@@ -442,7 +459,7 @@ let suites : (string * (string -> string)) list =
     ("showincludes", showinc_line true); ("showincludes_pinned", showinc_line false);
     ("lastline", lastline_line); ("depfiledeps", depfiledeps_line);
     ("taskmsg", taskmsg_line true); ("taskmsg_pinned", taskmsg_line false);
-    ("truncate", truncate_line); ("bar", bar_line); ("fancy", fancy_line); ("lossy", lossy_line); ("task", task_line); ("status", status_line);
+    ("truncate", truncate_line); ("bar", bar_line); ("fancy", fancy_line); ("lossy", lossy_line); ("task", task_line); ("dumb", dumb_line); ("status", status_line);
     ("inv", inv_line); ("select", select_line); ("build", build_line);
     ("dbopen", dbopen_line); ("dbwrite", dbwrite_line);
     ("load", load_line); ("world", world_line); ("siphash", hash_line); ("dedup", dedup_line true); ("dedup_pinned", dedup_line false) ]
